@@ -5,6 +5,7 @@ import (
 	"fmt"
 	"strings"
 	"sync"
+	"sync/atomic"
 	"time"
 
 	"github.com/SAP/go-dblib/tds"
@@ -82,13 +83,21 @@ func c12CloseRun(c *Ctx, cs c12CloseCase) {
 	defer k.teardown()
 	var mu sync.Mutex
 	var setups []uint16
+	var ackOff int32 // != 0: SETUP packets are not acknowledged any more
 	k.tr.OnWrite = func(rec xport.WriteRec) {
 		if len(rec.Data) == 8 && rec.Data[0] == byte(tds.TDS_BUF_SETUP) {
 			id := uint16(rec.Data[4])<<8 | uint16(rec.Data[5])
 			mu.Lock()
 			setups = append(setups, id)
 			mu.Unlock()
-			k.tr.Feed(xport.Header{Type: byte(tds.TDS_BUF_PROTACK), Status: xport.EOM, Length: 8, Channel: id}.Bytes())
+			if atomic.LoadInt32(&ackOff) == 0 {
+				k.tr.Feed(xport.Header{Type: byte(tds.TDS_BUF_PROTACK), Status: xport.EOM, Length: 8, Channel: id}.Bytes())
+			}
+			return
+		}
+		// the logout of channel 0 (Conn.Close) is answered at once
+		if len(rec.Data) == 10 && rec.Data[4] == 0 && rec.Data[5] == 0 && rec.Data[8] == 0x71 {
+			k.tr.Feed(xport.Packet(byte(tds.TDS_BUF_RESPONSE), xport.EOM, 0, srv.Done(srv.TokDone, 0, 0, 0)))
 		}
 	}
 	fail := func(sig, detail string) { r.Violate(sig, detail, cs) }
@@ -284,6 +293,83 @@ func c12CloseRun(c *Ctx, cs c12CloseCase) {
 			return
 		}
 		judge(fmt.Sprintf("channel %d", yid), y, ty, 0)
+	case "stray-then-create":
+		// a packet for an id that is not in use YET (the next ids a new
+		// channel can get) is reported; a channel created afterwards with
+		// such an id works like any other
+		for _, id := range []uint16{ids[len(ids)-1] + 1, ids[len(ids)-1] + 2, ids[len(ids)-1] + 1} {
+			k.tr.Feed(xport.Packet(byte(tds.TDS_BUF_RESPONSE), xport.EOM, id, srv.Done(srv.TokDone, 0, 0, 0)))
+			if _, ok := settle("before-create"); !ok {
+				return
+			}
+			d0 := drainChannel(k.ch, k.ctx)
+			if _, inv, other := tagsOf(d0); inv != 1 || len(other) > 0 {
+				fail("invalid-channel/error-count/stray-packet", fmt.Sprintf("a packet for channel %d, which does not exist yet (live ids %v), produced %d 'invalid channel' errors (others: %v); want exactly 1", id, ids, inv, other))
+				return
+			}
+		}
+		for n := 0; n < 2; n++ {
+			z, zid, ok := newChannel()
+			if !ok {
+				return
+			}
+			pz, tz := response(zid, 2, 3, true)
+			k.tr.Feed(pz...)
+			if _, ok := settle("after-create"); !ok {
+				return
+			}
+			judge(fmt.Sprintf("channel %d, created after a stray packet for an id that was free then", zid), z, tz, 0)
+			if r.NumViolations() > 0 {
+				return
+			}
+		}
+	case "connclose-vs-pending-newchannel":
+		// NewChannel waits for an acknowledgement that never comes; the
+		// application gives up and closes the connection. Both calls return.
+		atomic.StoreInt32(&ackOff, 1)
+		var nerr error
+		nc := c13Go(func() { _, nerr = k.conn.NewChannel() })
+		if st := nc.parkedState(10 * time.Second); st == "" {
+			select {
+			case <-nc.done:
+				r.Count("close_pending_newchannel_returned_early", 1)
+			default:
+				r.Inconclusive("NewChannel neither parked nor returned")
+				return
+			}
+		}
+		var cerr error
+		cc := c13Go(func() { cerr = k.conn.Close() })
+		if !cc.wait(75 * time.Second) {
+			if st, desc := c13HangReport(cc); st {
+				fail("close/conn-close-does-not-return/pending-newchannel", "Conn.Close did not return within 75 s while a NewChannel call was waiting for its acknowledgement (the logout was answered at once): "+desc)
+			} else {
+				r.Inconclusive("Conn.Close did not return: %s", desc)
+			}
+			return
+		}
+		if !nc.wait(30 * time.Second) {
+			if st, desc := c13HangReport(nc); st {
+				fail("close/newchannel-does-not-return/conn-closed", "NewChannel was still waiting for its acknowledgement 30 s after Conn.Close had returned: "+desc)
+			} else {
+				r.Inconclusive("NewChannel did not return: %s", desc)
+			}
+			return
+		}
+		if cc.pi != nil || nc.pi != nil {
+			pi := cc.pi
+			if pi == nil {
+				pi = nc.pi
+			}
+			fail("panic/"+pi.Frame+"/conn-close-vs-newchannel", pi.Value)
+			return
+		}
+		if nerr == nil {
+			fail("close/newchannel-succeeded-without-acknowledgement", "NewChannel returned a channel although its SETUP was never acknowledged and the connection was closed")
+			return
+		}
+		_ = cerr
+		r.Count("close_pending_newchannel_cases", 1)
 	case "stray":
 		// packets of every header type, header-only and with a body, for an
 		// id that was never set up and for the id of the closed channel:
@@ -523,6 +609,10 @@ func c12CloseCases(c *Ctx) []c12CloseCase {
 				out = append(out, c12CloseCase{Family: "close", Kind: "stray", Channels: 2, Queue: 16, Before: typ, After: st, Final: withBody})
 			}
 		}
+	}
+	for _, n := range []int{2, 3} {
+		out = append(out, c12CloseCase{Family: "close", Kind: "stray-then-create", Channels: n, Queue: 16})
+		out = append(out, c12CloseCase{Family: "close", Kind: "connclose-vs-pending-newchannel", Channels: n, Queue: 16})
 	}
 	reps := 24
 	if !c.Quick() {
